@@ -22,7 +22,7 @@ NSS = "quill::tree::names::Namespaces"
 MAPPINGS = "quill::tree::mappings::"
 
 CLAIM = {
-    "text": "Decided for Mappings::merge and its helpers: (R09.1) the decision tables of merge_names (A->[a0,a1,-], B->[b0,-,b1], "
+    "text": "Decided for Mappings::merge and its helpers: (R09.1 equality) every PartialEq impl of a quill::tree model type is derived or compares plain fields with eq/== only - the `==` the combiners decide with is structural; (R09.1) the decision tables of merge_names (A->[a0,a1,-], B->[b0,-,b1], "
             "AB with equal first names->[a0,a1,b1], AB with different first names->Err, for present and absent names), merge_javadoc / "
             "merge_javadoc_ab (9+5 cells: the comment of whichever side has one, equal comments once, different comments->Err), merge_equal "
             "(4 cells), merge_namespaces ((s,a)+(s,b)->(s,a,b), different first->Err), Combination::map (3 cells, order of AB kept), "
